@@ -26,12 +26,16 @@ import (
 	"os"
 	"strconv"
 	"testing"
+	"unsafe"
 
 	"github.com/ProjectSerenity/firefly/kernel"
 	"github.com/ProjectSerenity/firefly/kernel/device"
 	"github.com/ProjectSerenity/firefly/kernel/device/tty"
 	"github.com/ProjectSerenity/firefly/kernel/device/video/console"
+	"github.com/ProjectSerenity/firefly/kernel/device/video/console/font"
+	"github.com/ProjectSerenity/firefly/kernel/device/video/console/logo"
 	"github.com/ProjectSerenity/firefly/kernel/kfmt"
+	"github.com/ProjectSerenity/firefly/kernel/multiboot"
 )
 
 type c16Ev map[string]interface{}
@@ -48,6 +52,8 @@ type c16DrvSpec struct {
 	Say     int    `json:"say"`    // injected bytes written during DriverInit
 	NL      int    `json:"nl"`     // >0: a line feed after that many of them
 	Direct  int    `json:"direct"` // injected bytes the driver logs with kfmt.Printf itself during DriverInit
+	Font    bool   `json:"font"`   // (TLC scenarios) a console with font support
+	Caps    int    `json:"caps"`   // console: 1 console.FontSetter, 2 console.LogoSetter, 4 the real VesaFbConsole over host memory
 }
 
 type c16Print struct {
@@ -148,23 +154,34 @@ func (d *c16Base) DriverInit(w io.Writer) *kernel.Error {
 		}
 	}
 	if !d.spec.InitOk {
-		return &kernel.Error{Module: d.name, Message: d.msg}
+		return &kernel.Error{Module: "M" + d.msg, Message: d.msg}
 	}
 	return nil
 }
 
 type c16IDer interface{ verifID() int }
 
+// c16Cons is a recording console.  With font support (like the shipped frame-buffer console) it has no
+// character geometry until SetFont; a logo takes rows away from the text area.
 type c16Cons struct {
 	c16Base
+	pw, ph                 uint32
+	needFont               bool
+	gw, gh, logoH          uint32
 	writes, fills, scrolls int
 }
 
 func (c *c16Cons) Dimensions(dim console.Dimension) (uint32, uint32) {
-	if dim == console.Characters {
-		return 80, 25
+	if dim != console.Characters {
+		return c.pw, c.ph
 	}
-	return 640, 400
+	if !c.needFont {
+		return 80, 25 - c.logoH/16
+	}
+	if c.gw == 0 || c.gh == 0 || c.logoH >= c.ph {
+		return 0, 0
+	}
+	return c.pw / c.gw, (c.ph - c.logoH) / c.gh
 }
 func (c *c16Cons) DefaultColors() (uint8, uint8)            { return 7, 0 }
 func (c *c16Cons) Fill(x, y, w, h uint32, fg, bg uint8)     { c.fills++ }
@@ -172,6 +189,54 @@ func (c *c16Cons) Scroll(console.ScrollDir, uint32)         { c.scrolls++ }
 func (c *c16Cons) Write(ch byte, fg, bg uint8, x, y uint32) { c.writes++ }
 func (c *c16Cons) Palette() color.Palette                   { return nil }
 func (c *c16Cons) SetPaletteColor(uint8, color.RGBA)        {}
+func (c *c16Cons) setFont(f *font.Font) {
+	if f != nil {
+		c.gw, c.gh = f.GlyphWidth, f.GlyphHeight
+	}
+}
+func (c *c16Cons) setLogo(l *logo.Image) {
+	if l != nil {
+		c.logoH = l.Height
+	}
+}
+
+type c16ConsF struct{ *c16Cons }
+type c16ConsL struct{ *c16Cons }
+type c16ConsFL struct{ *c16Cons }
+
+func (c c16ConsF) SetFont(f *font.Font)   { c.setFont(f) }
+func (c c16ConsL) SetLogo(l *logo.Image)  { c.setLogo(l) }
+func (c c16ConsFL) SetFont(f *font.Font)  { c.setFont(f) }
+func (c c16ConsFL) SetLogo(l *logo.Image) { c.setLogo(l) }
+
+// c16ConsFB is the shipped VesaFbConsole (8 bpp) over host memory behind the mock driver identity.
+type c16ConsFB struct {
+	c16Base
+	*console.VesaFbConsole
+}
+
+func (c *c16ConsFB) DriverName() string                      { return c.c16Base.DriverName() }
+func (c *c16ConsFB) DriverVersion() (uint16, uint16, uint16) { return c.c16Base.DriverVersion() }
+func (c *c16ConsFB) DriverInit(w io.Writer) *kernel.Error {
+	if err := c.c16Base.DriverInit(w); err != nil {
+		return err
+	}
+	return c.VesaFbConsole.DriverInit(w)
+}
+
+var c16FbMem []byte
+
+func c16NewFB(base c16Base) *c16ConsFB {
+	const w, h = 640, 480
+	if c16FbMem == nil {
+		c16FbMem = make([]byte, w*h+8192)
+	}
+	addr := (uintptr(unsafe.Pointer(&c16FbMem[0])) + 4095) &^ 4095
+	console.VerifC16BindFb(addr)
+	return &c16ConsFB{c16Base: base, VesaFbConsole: console.NewVesaFbConsole(w, h, 8, w, nil, addr)}
+}
+
+var c16Info = []uint64{16, 8 << 32} // a multiboot info block with nothing but the end tag (the HAL reads the command line)
 
 type c16TTY struct {
 	c16Base
@@ -241,7 +306,10 @@ func c16Scenario1(t *testing.T, enc *json.Encoder, sc *c16Scenario, tag interfac
 		io.Copy(io.Discard, kfmt.GetOutputSink().(io.Reader))
 	}
 
+	multiboot.SetInfoPtr(uintptr(unsafe.Pointer(&c16Info[0])))
 	var ttys []*c16TTY
+	var conses []c16ConsRef
+	haveFB := false
 	drvEv := []c16Ev{}
 	n := len(sc.Drv)
 	for i := range sc.Drv {
@@ -256,7 +324,30 @@ func c16Scenario1(t *testing.T, enc *json.Encoder, sc *c16Scenario, tag interfac
 			ttys = append(ttys, x)
 			drv = x
 		case "cons":
-			drv = &c16Cons{c16Base: base}
+			caps := spec.Caps
+			if spec.Font && caps == 0 {
+				caps = 1 + 2*(id%2)
+			}
+			sizes := [][2]uint32{{640, 480}, {800, 600}, {1024, 768}, {320, 200}}
+			mc := &c16Cons{c16Base: base, pw: sizes[id%4][0], ph: sizes[id%4][1], needFont: caps&1 != 0}
+			switch {
+			case caps&4 != 0 && !haveFB:
+				haveFB = true
+				x := c16NewFB(base)
+				conses = append(conses, c16ConsRef{id, x})
+				drv = x
+			case caps&3 == 3:
+				drv = c16ConsFL{mc}
+			case caps&3 == 1:
+				drv = c16ConsF{mc}
+			case caps&3 == 2:
+				drv = c16ConsL{mc}
+			default:
+				drv = mc
+			}
+			if _, fb := drv.(*c16ConsFB); !fb {
+				conses = append(conses, c16ConsRef{id, drv.(console.Device)})
+			}
 		default:
 			x := base
 			drv = &x
@@ -343,6 +434,16 @@ func c16Scenario1(t *testing.T, enc *json.Encoder, sc *c16Scenario, tag interfac
 		attached = append(attached, c16Ev{"id": x.id, "v": x.attached})
 	}
 	end["shown"], end["state"], end["attached"], end["held"] = shown, state, attached, held
+	geom, consGeom := []c16Ev{}, []c16Ev{}
+	for _, x := range ttys {
+		gw, gh := x.vt.VerifC16Geometry()
+		geom = append(geom, c16Ev{"id": x.id, "v": []int{int(gw), int(gh)}})
+	}
+	for _, c := range conses {
+		cw, ch := c.cons.Dimensions(console.Characters)
+		consGeom = append(consGeom, c16Ev{"id": c.id, "v": []int{int(cw), int(ch)}})
+	}
+	end["geom"], end["consGeom"] = geom, consGeom
 	var rest c16Sink
 	kfmt.SetOutputSink(nil)
 	io.Copy(&rest, kfmt.GetOutputSink().(io.Reader))
@@ -350,6 +451,11 @@ func c16Scenario1(t *testing.T, enc *json.Encoder, sc *c16Scenario, tag interfac
 	r.emit(end)
 	r.emit(c16Ev{"k": "reset"})
 	return wEnd
+}
+
+type c16ConsRef struct {
+	id   int
+	cons console.Device
 }
 
 type c16Sink struct{ b []byte }
@@ -447,6 +553,9 @@ func TestVerifC16HalRandom(t *testing.T) {
 			if rng.Intn(5) == 0 {
 				d.Direct = 1 + rng.Intn(50)
 			}
+			if d.Kind == "cons" {
+				d.Caps = []int{0, 1, 2, 3, 3, 1, 0, 4}[rng.Intn(8)]
+			}
 			s.Drv = append(s.Drv, d)
 		}
 		heavy := rng.Intn(3) == 0 // scenarios that overflow the 2047-byte ring before the link
@@ -491,6 +600,7 @@ func TestVerifC16HalRandom(t *testing.T) {
 					cc := c16DrvSpec{Order: 0, Kind: "cons", ProbeOk: true, InitOk: true}
 					if cfg&2 != 0 {
 						tt.Say, cc.Say = 5, 9
+						cc.Caps = 3
 					}
 					if cfg&1 == 0 {
 						s.Drv = append(s.Drv, tt, cc)
